@@ -220,7 +220,7 @@ def run(ctx, out):
                    f'{len(bad)} mismatches, {len(errs)} shard errors')
         for e in errs[:1]:
             out.violation('C15:corr_names:shard-error', 'shard failed: ' + e[:400], {'correspondence': 'corr_names', 'error': e[:1500]}, no_input=True)
-        if bad and not any(not v['no_input'] for v in out.violations):
+        if bad and not out.has_unlisted_input():
             it = items[bad[0]]
             out.violation('C15:corr_names', f'model and pane disagree on name derivation for {it[:4]!r}: pane {it[4]!r}', {'correspondence': 'corr_names', 'case': repr(it)}, no_input=True)
     out.evaluations += table_check(out)
